@@ -30,13 +30,14 @@ class ScramServer:
     """Factory attached to a broker (`broker.sasl`)."""
 
     def __init__(self, world, users, *, salt, iterations, server_nonce, tamper=None,
-                 impostor=False, mechanisms=("SCRAM-SHA-256", "SCRAM-SHA-512")):
+                 impostor=False, mechanisms=("SCRAM-SHA-256", "SCRAM-SHA-512"), tamper_arg=None):
         self.world = world
         self.users = users  # username -> password the server believes
         self.salt = salt
         self.iterations = iterations
         self.server_nonce = server_nonce
         self.tamper = tamper
+        self.tamper_arg = tamper_arg  # None = the fixed variants of format-1 plans
         self.impostor = impostor
         self.mechanisms = tuple(mechanisms)
         self.sessions = []
@@ -112,6 +113,16 @@ class ScramSession:
                 # does not know the password: accepts anything, fabricates a signature
                 self.state = 2
                 fake = _h(self.hash, b"impostor" + self.nonce.encode())
+                arg = srv.tamper_arg
+                if arg is not None:
+                    # a fabricated signature may have any length
+                    how = arg % 4
+                    if how == 1:
+                        fake = b""
+                    elif how == 2:
+                        fake = fake[:(arg // 4) % len(fake)]
+                    elif how == 3:
+                        fake = fake + fake[:1 + (arg // 4) % 4]
                 return True, b"v=" + base64.b64encode(fake), True
             if m.group("nonce") != self.nonce:
                 self.state = 2
@@ -146,10 +157,22 @@ class ScramSession:
             server_sig = _hmac(self.hash, server_key, auth_message)
             t = srv.tamper
             self.state = 2
+            arg = srv.tamper_arg
             if t == "signature":
                 b = bytearray(server_sig)
-                b[len(b) // 2] ^= 0x10
+                if arg is None:
+                    b[len(b) // 2] ^= 0x10
+                else:
+                    bit = arg % (len(b) * 8)
+                    b[bit // 8] ^= 1 << (bit % 8)
                 return True, b"v=" + base64.b64encode(bytes(b)), True
+            if t == "sig_truncate":
+                # a strict prefix of the right signature (possibly empty)
+                keep = (arg or 0) % len(server_sig)
+                return True, b"v=" + base64.b64encode(server_sig[:keep]), True
+            if t == "sig_extend":
+                extra = bytes([(arg or 0) % 256]) * (1 + (arg or 0) % 4)
+                return True, b"v=" + base64.b64encode(server_sig + extra), True
             if t == "error_instead_of_verifier":
                 return True, b"e=other-error", True
             return True, b"v=" + base64.b64encode(server_sig), True
